@@ -35,6 +35,7 @@ func init() {
 	Generators["C10"] = func(t *rapid.T, tier string) any {
 		k := gen.DefaultKnobs()
 		k.PBalanceOrigin = 55
+		k.PWorldOddPlaces = 12
 		k.OverdraftFlag = gen.Chance(t, "odflag", 50)
 		k.POrigin = 25
 		k.PSave = 12
@@ -167,6 +168,7 @@ func init() {
 	Generators["C11"] = func(t *rapid.T, tier string) any {
 		k := gen.DefaultKnobs()
 		k.PBalanceOrigin = 35
+		k.PWorldOddPlaces = 8
 		k.OverdraftFlag = gen.Chance(t, "odflag", 40)
 		k.PRich = 30
 		k.PWorldFallback = 30
